@@ -419,7 +419,12 @@ pub fn run_load(sb: &mut Sandbox, refs: &Refs, case: &LoadCase, extra_args: &[(&
             }
             // the loader only has to refuse if it reached this file
             let reached = res.trace.iter().any(|t| t.path.ends_with(name.as_str()));
-            if reached && ev.accepted {
+            // A slice cap exists (and is claimed) for the leaf verifier's byte constructor, which hashes its
+            // input; the aggregator's byte constructors take memory the caller already holds and pin it by
+            // equality or parse it, and the property's cap is about what a loader reads or hashes - demanding a
+            // refusal there would ask for more than the property states (a check of mine did, see DESIGN 16.7)
+            let slice_cap_claimed = !harness_reads_files(&case.loader) || case.loader == "load_leaf_verifier_bytes";
+            if reached && ev.accepted && slice_cap_claimed {
                 ev.findings.push(("load:oversize-file-accepted".into(), format!("{} accepted although {name} is {size} bytes (cap {cap})", case.loader)));
             }
             if reached {
